@@ -20,6 +20,10 @@ func deepDiffAt(got, want any, path string, onPath map[uintptr]bool, depth int) 
 		if got != nil {
 			return fmt.Sprintf("%s: was nil, now %T", path, got)
 		}
+	case int, int64, int32, uint64:
+		if !reflect.DeepEqual(got, want) {
+			return fmt.Sprintf("%s: was %v (%T), now %v (%T)", path, want, want, got, got)
+		}
 	case bool, float64, string:
 		if !reflect.DeepEqual(got, want) {
 			// NaN never equals itself
